@@ -12,6 +12,7 @@ node by node by this module.
 from __future__ import annotations
 
 import ast
+import os
 import builtins as _b
 import math
 import operator
@@ -208,6 +209,18 @@ class Oracle:
         return c
 
 
+class StrictOracle(Oracle):
+    """the oracle of an evaluator that is not driven by enumerate_paths: the walked code is expected to be straight-line
+    on the symbolic inputs; a data-dependent branch there would silently be explored on one side only, so it is an
+    analysis error instead"""
+
+    def next(self, info):
+        if os.environ.get("VERIF_LAX_ORACLE"):
+            return super().next(info)
+        raise AnalysisError(f"{info}: branch on a symbolic condition in code walked as straight-line (single evaluation, "
+                            "no path enumeration)")
+
+
 class Path:
     def __init__(self):
         self.outcome = None      # 'return' | 'raise'
@@ -287,7 +300,7 @@ class Interp:
                  int_bindings=None):
         self.world = world
         self.repo = world.repo
-        self.oracle = oracle or Oracle()
+        self.oracle = oracle or StrictOracle()
         self.summaries = summaries or {}
         self.class_hooks = list(class_hooks or [])
         if native_fields:
@@ -374,6 +387,8 @@ class Interp:
                 if gc.get(key) is _INPROGRESS:
                     del gc[key]
         gc[key] = v
+        if kind not in ("func", "class", "module", "external", "typing") and isinstance(v, (dict, list, set, bytearray, HashObj)):
+            self.world.__dict__.setdefault("shared_objs", {})[id(v)] = (m2.name, name, v)
         return v
 
     def external_value(self, ext: External):
@@ -410,6 +425,8 @@ class Interp:
                 finally:
                     self.stack = saved
                 res = (v, c)
+                if isinstance(v, (dict, list, set, bytearray, HashObj)):
+                    self.world.__dict__.setdefault("shared_objs", {})[id(v)] = (c.module.name, name, v)
                 break
         if res is None:
             if default is _b.NotImplemented:
@@ -586,7 +603,7 @@ class Interp:
                 return _ClassDict(obj)
             m = self.class_attr(obj, name, default=_MISSING)
             if m is _MISSING:
-                if name == "__name__":
+                if name in ("__name__", "__qualname__"):
                     return obj.name
                 if self.facts.get(Term("dict_has", (f"classdict:{obj.qualname}", name), "bool")) is True:
                     # attribute created at run time by an earlier call (state): an unknown mutable object
@@ -617,6 +634,10 @@ class Interp:
             if name == "block_size":
                 from .term import t_block_size
                 return t_block_size(obj.fn)
+            if name in ("update", "copy", "hexdigest"):
+                return _BuiltinMethod(self, "hash." + name, obj)
+            if name == "name":
+                return Term("hash_name", (_hashable(obj.fn),), "str")
         if isinstance(obj, HashFn) and name in ("digest_size", "block_size"):
             return getattr(obj, name)
         if isinstance(obj, Term):
@@ -822,6 +843,34 @@ class Interp:
             raise AnalysisError(f"{self.where(node)}: unpack of field value")
         raise AnalysisError(f"{self.where(node)}: cannot unpack {v!r}")
 
+    def shared_read(self, obj, key, node, how):
+        """a keyed read of a container: returns 'plain' (not shared state / never written by a function), 'miss'
+        (key-complete memo: the miss path is the whole behaviour), or 'fork' (contents unknown); raises
+        HistoryDependence when the key does not determine the stored value"""
+        from . import memo
+        from .term import HistoryDependence, SHARED_SEEN
+        so = self.world.__dict__.get("shared_objs", {}).get(id(obj))
+        if so is None or so[2] is not obj:
+            return "plain"
+        mod, name, _ = so
+        writers = memo.written_shared_names(self.repo).get((mod, name))
+        if not writers:
+            return "plain"
+        fr = next((f for f in reversed(self.stack) if f.func is not None), None)
+        if fr is None:
+            return "plain"
+        kind, detail = memo.classify(fr.func.node, name)
+        if node is None:
+            node = memo.first_read(fr.func.node, name)
+        where = self.where(node)
+        SHARED_SEEN[(mod, name, fr.func.qualname)] = (kind, detail, where)
+        if kind == "history":
+            raise HistoryDependence(fr.func.qualname, f"{mod}.{name}", f"{how}: {detail}; written at " +
+                                    ", ".join(f"{q.rsplit('.', 1)[-1]}:{ln}" for q, ln, _h in writers[:3]), where)
+        if kind == "complete":
+            return "miss"
+        return "fork"
+
     def shared_name(self, obj):
         reg = self.world.__dict__.setdefault("shared_names", {})
         if id(obj) not in reg:
@@ -1009,11 +1058,26 @@ class Interp:
     def e_JoinedStr(self, e, fr):
         return "<f-string>"
 
+    def _display(self, e, fr):
+        out = []
+        for x in e.elts:
+            if isinstance(x, ast.Starred):
+                v = self.eval(x.value, fr)
+                if isinstance(v, Term) and v.op == "tuple":
+                    out.extend(v.args)
+                elif is_sym(v):
+                    out.append(Term("star", (_hashable(v),), "any"))
+                else:
+                    out.extend(self.iter_concrete(v, x))
+            else:
+                out.append(self.eval(x, fr))
+        return out
+
     def e_Tuple(self, e, fr):
-        return tuple(self.eval(x, fr) for x in e.elts)
+        return tuple(self._display(e, fr))
 
     def e_List(self, e, fr):
-        return [self.eval(x, fr) for x in e.elts]
+        return self._display(e, fr)
 
     def e_Dict(self, e, fr):
         return {self.eval(k, fr): self.eval(v, fr) for k, v in zip(e.keys, e.values)}
@@ -1276,6 +1340,12 @@ class Interp:
             if not is_sym(x) and (x in container.cls.methods or x in container.cls.attr_nodes or x in container.cls.dyn_attrs):
                 return True
             return Term("dict_has", (f"classdict:{container.cls.qualname}", _hashable(x)), "bool")
+        if isinstance(container, dict):
+            sr = self.shared_read(container, x, node, "membership test")
+            if sr == "miss":
+                return False
+            if sr == "fork":
+                return Term("dict_has", (self.shared_name(container), _hashable(x)), "bool")
         if isinstance(container, dict) and not _has_abstract(x):
             return x in container
         if isinstance(container, dict):
@@ -1328,7 +1398,21 @@ class Interp:
                 return Term("byte", (base, idx), "int")
             return Term("item", (base, idx), _item_sorts(base, None, idx))
         if isinstance(base, SymSeq):
-            raise AnalysisError(f"{self.where(node)}: indexing a symbolic sequence")
+            if is_sym(idx) or not isinstance(idx, int):
+                raise AnalysisError(f"{self.where(node)}: indexing a symbolic sequence with {idx!r}")
+            # the element at one fixed position: in range only if the length allows it
+            inr = self.compare(ast.Lt(), idx if idx >= 0 else -idx - 1, base.length, node)
+            if not self.truth(inr, node):
+                self.raise_exc("IndexError", "sequence index out of range", node)
+            e = base.elem
+            sort = e.sort if isinstance(e, Term) else "any"
+            return Term("at", (_hashable(e), base.name, idx), sort)
+        if isinstance(base, dict):
+            sr = self.shared_read(base, idx, node, "subscript read")
+            if sr == "miss":
+                self.raise_exc("KeyError", "memo miss", node)
+            if sr == "fork":
+                return Term("dict_get", (self.shared_name(base), _hashable(idx)), "any")
         if isinstance(base, dict) and _has_abstract(idx):
             return Term("dict_get", (self.shared_name(base), _hashable(idx)), "any")
         if is_sym(idx):
